@@ -205,7 +205,7 @@ func (s *recStream) RecvMsg(m interface{}) error  { s.recvs++; return s.recvErr 
 // returns nil, else the classifier's choice), the operation's error is returned unchanged; on
 // refusal the configured limit-exceeded classifier for that direction decides the status code.
 //
-//verif:harness property=C14 theory=bv tier=quick replay=engine
+//verif:harness property=C14 theory=bv tier=quick replay=engine maxpaths=120000
 func VerifC14_Stream() {
 	recvLim := &recLimiter{name: "recv", grant: verif.Bool("recvGrant")}
 	sendLim := &recLimiter{name: "send", grant: verif.Bool("sendGrant")}
